@@ -177,6 +177,8 @@ type Config struct {
 	// field -> constant length delta (slices) if known. ok=false: unknown callee (everything may change).
 	Effects func(fn *ssa.Function, method *types.Func) (mods map[*types.Var]*int64, writesSink bool, ok bool)
 	Pure    func(fn *ssa.Function) bool
+	// PreFacts: truth values of comparisons assumed at entry (keys as produced by eqKey).
+	PreFacts map[string]bool
 	// GlobalMap resolves m[key] for a package-level map initialised with constants (nil: unknown).
 	GlobalMap func(g *ssa.Global, key AV) AV
 	// Balanced: the callee's own obligations guarantee it leaves no unaccounted payload bytes.
@@ -234,6 +236,9 @@ func (x *Exec) newObj(st *State, id string, t types.Type, extern, opaque bool) *
 // Run executes fn from its entry with symbolic parameters.
 func (x *Exec) Run(fn *ssa.Function) []*PathResult {
 	st := &State{mem: newMemory(), facts: map[string]bool{}, sink: map[string]Poly{}}
+	for k, v := range x.cfg.PreFacts {
+		st.facts[k] = v
+	}
 	fr := &Frame{fn: fn, env: map[ssa.Value]AV{}, ctx: ""}
 	for _, p := range fn.Params {
 		fr.env[p] = x.paramValue(st, p)
